@@ -114,7 +114,9 @@ func (e *cmpEval) keyOf(x ast.Expr) (string, int) {
 
 func replaceIdent(s, name, by string) string {
 	var sb strings.Builder
-	isIdC := func(c byte) bool { return c == '_' || c >= 'a' && c <= 'z' || c >= 'A' && c <= 'Z' || c >= '0' && c <= '9' }
+	isIdC := func(c byte) bool {
+		return c == '_' || c >= 'a' && c <= 'z' || c >= 'A' && c <= 'Z' || c >= '0' && c <= '9'
+	}
 	for k := 0; k < len(s); {
 		if strings.HasPrefix(s[k:], name) && (k == 0 || !isIdC(s[k-1]) && s[k-1] != '.') && (k+len(name) == len(s) || !isIdC(s[k+len(name)])) {
 			sb.WriteString(by)
